@@ -111,6 +111,9 @@ type c12Case struct {
 	More []string
 	// NilOpts: Accept is called with nil options (only drawn without patterns and without InsecureSkipVerify)
 	NilOpts bool
+	// Forwarded: further request headers naming hosts (X-Forwarded-Host, Forwarded, X-Original-Host):
+	// the client controls them as much as it controls Origin, so they authorise nothing.
+	Forwarded [][2]string
 }
 
 // badPattern: syntactically invalid for path.Match; such a pattern authorises nobody.
@@ -140,11 +143,11 @@ func genC12(rt *rapid.T) c12Case {
 	evil := rapid.SampledFrom([]string{"evil.com", "evil.example.net", "attacker.io:8080", "10.0.0.1"}).Draw(rt, "evil")
 	// pattern sets
 	for i := rapid.IntRange(0, 3).Draw(rt, "nPatterns"); i > 0; i-- {
-		c.Patterns = append(c.Patterns, rapid.SampledFrom([]string{"*.example.com", "example.com", "trusted.org", "*.trusted.org", "TRUSTED.org", "app-?.trusted.org", "*", "localhost:*", "*:8080", "evil.com", "*.example.com", "trusted.org", "[", "[a-", "cdn[0-9.example.com", "trusted.org\\"}).Draw(rt, "pattern"))
+		c.Patterns = append(c.Patterns, rapid.SampledFrom([]string{"*.example.com", "example.com", "trusted.org", "*.trusted.org", "TRUSTED.org", "app-?.trusted.org", "*", "localhost:*", "*:8080", "evil.com", "*.example.com", "trusted.org", "[", "[a-", "cdn[0-9.example.com", "trusted.org\\", "https://*.example.com", "http://*", "*://*.trusted.org", "https://example.com"}).Draw(rt, "pattern"))
 	}
 	c.Insecure = rapid.IntRange(0, 9).Draw(rt, "insecure") == 0
 	nilOpts := rapid.Bool().Draw(rt, "nilOptions")
-	c.Family = rapid.SampledFrom([]string{"absent", "same-host", "same-host-case", "pattern-authorised", "other-host", "userinfo-host-at-evil", "userinfo-evil-at-host", "port-mismatch", "suffix-lookalike", "prefix-lookalike", "subdomain-lookalike", "host-in-path", "host-in-query", "host-in-fragment", "null", "schemeless", "opaque", "whitespace", "garbage", "trailing-dot", "double-at", "backslash", "empty-authority", "long-lookalike", "long-authorised", "multi-origin"}).Draw(rt, "family")
+	c.Family = rapid.SampledFrom([]string{"absent", "same-host", "same-host-case", "pattern-authorised", "other-host", "userinfo-host-at-evil", "userinfo-evil-at-host", "port-mismatch", "suffix-lookalike", "prefix-lookalike", "subdomain-lookalike", "host-in-path", "host-in-query", "host-in-fragment", "null", "schemeless", "opaque", "whitespace", "garbage", "trailing-dot", "double-at", "backslash", "empty-authority", "long-lookalike", "long-authorised", "multi-origin", "suffix-in-query", "suffix-in-query"}).Draw(rt, "family")
 	switch c.Family {
 	case "absent":
 		c.Origin = ""
@@ -216,6 +219,11 @@ func genC12(rt *rapid.T) c12Case {
 			h += rapid.SampledFrom([]string{".evil.test", "evil.test", ".evil.test:8080"}).Draw(rt, "longTail")
 		}
 		c.Origin, c.Built, c.BuiltHost = scheme+"://"+h, true, h
+	case "suffix-in-query":
+		// the attacker's host, then a query / fragment / path that ends like an authorised name
+		sep := rapid.SampledFrom([]string{"?", "#", "/", "?x=", "/a/b?c#"}).Draw(rt, "suffixSep")
+		tail := rapid.SampledFrom([]string{".example.com", "app.example.com", ".trusted.org", host, "x.trusted.org"}).Draw(rt, "suffixTail")
+		c.Origin = scheme + "://" + evil + sep + tail
 	case "multi-origin":
 		good := rapid.SampledFrom([]string{scheme + "://" + host, "https://app.example.com", "https://x.trusted.org"}).Draw(rt, "goodOrigin")
 		bad := scheme + "://" + evil
@@ -231,6 +239,17 @@ func genC12(rt *rapid.T) c12Case {
 		}
 	}
 	c.NilOpts = nilOpts && len(c.Patterns) == 0 && !c.Insecure
+	if auth, ok := originAuthority(c.Origin); ok && rapid.IntRange(0, 3).Draw(rt, "forwardedHeaders") == 0 {
+		name := rapid.SampledFrom([]string{"X-Forwarded-Host", "X-Forwarded-Host", "X-Original-Host", "X-Forwarded-Server", "Forwarded"}).Draw(rt, "forwardedName")
+		val := auth
+		if name == "Forwarded" {
+			val = "host=" + auth
+		}
+		if rapid.Bool().Draw(rt, "forwardedList") {
+			val = "proxy.internal, " + val
+		}
+		c.Forwarded = append(c.Forwarded, [2]string{name, val})
+	}
 	return c
 }
 
@@ -242,6 +261,9 @@ func runC12(c c12Case) (status int, hijacked bool, err error) {
 	}
 	for _, o := range c.More {
 		r.Header.Add("Origin", o)
+	}
+	for _, f := range c.Forwarded {
+		r.Header.Add(f[0], f[1])
 	}
 	opts := &websocket.AcceptOptions{OriginPatterns: c.Patterns, InsecureSkipVerify: c.Insecure}
 	if c.NilOpts {
@@ -305,7 +327,7 @@ func checkC12(c c12Case, status int, hijacked bool) string {
 
 func TestC12(t *testing.T) {
 	rec := evid.For("C12")
-	rec.Rule = "rapid draws (Host, Origin, OriginPatterns, InsecureSkipVerify) from an origin attack grammar: 12 host forms (names, IPv4, bracketed IPv6, ports, mixed case) x 26 origin families (very long authorised names and look-alikes of 13..600 bytes with one upper-case letter, several Origin lines of which the first is the one a Go handler sees, absent, same host, case variants, pattern-authorised, other host, userinfo tricks both ways, port mismatch, suffix/prefix/sub-domain look-alikes, host inside path/query/fragment, null, schemeless, opaque, whitespace, garbage, trailing dot, double @, backslash, empty authority) x 5 schemes x pattern sets with literals, * and ? and syntactically invalid patterns (which authorise nobody), or nil options after earlier handshakes of the process ran with InsecureSkipVerify. Oracle: independent authority extractor + glob matcher; one-sided security predicate (upgraded => authorised) plus the converse for origins the generator built as RFC 6454 serialisations. Non-trivial: Origin present and textually different from Host. distinct = hash(host, origin, patterns, flag)."
+	rec.Rule = "rapid draws (Host, Origin, OriginPatterns, InsecureSkipVerify) from an origin attack grammar: 12 host forms (names, IPv4, bracketed IPv6, ports, mixed case) x 26 origin families (very long authorised names and look-alikes of 13..600 bytes with one upper-case letter, several Origin lines of which the first is the one a Go handler sees, absent, same host, case variants, pattern-authorised, other host, userinfo tricks both ways, port mismatch, suffix/prefix/sub-domain look-alikes, host inside path/query/fragment, null, schemeless, opaque, whitespace, garbage, trailing dot, double @, backslash, empty authority) x 5 schemes x pattern sets with literals, * and ? and syntactically invalid or scheme-qualified patterns (which authorise nobody: patterns are matched against the origin's host), optional X-Forwarded-Host-style request headers naming the origin's host (which authorise nothing), or nil options after earlier handshakes of the process ran with InsecureSkipVerify. Oracle: independent authority extractor + glob matcher; one-sided security predicate (upgraded => authorised) plus the converse for origins the generator built as RFC 6454 serialisations. Non-trivial: Origin present and textually different from Host. distinct = hash(host, origin, patterns, flag)."
 	rapid.Check(t, func(rt *rapid.T) {
 		c := genC12(rt)
 		status, hijacked, _ := runC12(c)
@@ -315,7 +337,7 @@ func TestC12(t *testing.T) {
 		if status == 101 {
 			out = "upgraded"
 		}
-		rec.Case(nt, fmt.Sprintf("%s|%s|%v|%v|%v|%v", c.Host, c.Origin, c.Patterns, c.Insecure, c.More, c.NilOpts), "family:"+c.Family, "outcome:"+out, "family-outcome:"+c.Family+"/"+out)
+		rec.Case(nt, fmt.Sprintf("%s|%s|%v|%v|%v|%v|%v", c.Host, c.Origin, c.Patterns, c.Insecure, c.More, c.NilOpts, c.Forwarded), "family:"+c.Family, "outcome:"+out, "family-outcome:"+c.Family+"/"+out)
 		if rec.WantSample() {
 			rec.Sample(map[string]any{"host": c.Host, "origin": c.Origin, "patterns": c.Patterns, "insecure": c.Insecure, "status": status})
 		}
